@@ -1,6 +1,7 @@
 use crate::CheckDef;
 
 pub mod c17;
+pub mod c20;
 pub mod c21;
 pub mod c22;
 pub mod c23;
@@ -19,6 +20,16 @@ pub fn registry() -> &'static [CheckDef] {
             cpu_budget_ms: 120_000,
             run: c17::run,
             assumptions: &["NativeStorage page files in the system temp dir", "minimum node occupancy is not part of the stated well-formedness and is not judged"],
+        },
+        CheckDef {
+            id: "C20",
+            level: "fault_enumeration",
+            rule: "Two generated databases (all column types, NULLs, index, UNIQUE, view) are saved in binary, compressed, JSON and SQL-dump form (8 valid files). Section A enumerates EVERY byte offset 0..=len of every file and applies at that offset: truncation, 0x00, 0xFF, bit flips (2 in quick, all 8 in thorough), every 32/64-bit little-endian length overwrite from {0, 1, 2^31-1, 2^32-1, 2^63-1, 2^63, 2^64-1}, byte deletion and insertion; each damaged file is loaded through the format's loader and (header region) through the sniffing Database::load. Section B loads random byte strings, valid-header+random-tail, multi-byte edits, splices and block repetitions. Monitor per load: catch_unwind, largest single allocation request seen by a counting global allocator (limit 64 MiB + 16 x file size), process abort / 20 s CPU budget via the shard runner. distinct = (format, mutation kind, loader, loaded|error).",
+            floor: 30,
+            shards: 16,
+            cpu_budget_ms: 20_000,
+            run: c20::run,
+            assumptions: &["the counting allocator observes requests of the whole process (single-threaded shard)", "files are small (<= a few KiB) so that every offset can be enumerated"],
         },
         CheckDef {
             id: "C21",
